@@ -228,6 +228,11 @@ def run(m: Model, r: Report, tier: str) -> None:
     log_queues_unbounded(m, r, "R2")
     # the DB completion takes the exit code from run_meta
     fin = m.require_function(f"{BASE}.BaseCommand._db_finish_run_meta")
+    # (a local alias of the handler - `db_handler = self.db_handler` - is resolved, so that the conditions read the attribute the property names)
+    from sa.util import subst_locals as _slf
+    import copy as _cpf
+    fin = _cpf.copy(fin)
+    fin.node = ast.fix_missing_locations(_slf(fin.node, fin.node))
     calls = [n for n in ast.walk(fin.node) if isinstance(n, ast.Call) and isinstance(n.func, ast.Attribute) and n.func.attr == "complete_run_meta"]
     r.check(len(calls) == 1 and any(ast.unparse(a) == "self.run_meta.exit_code" for a in calls[0].args), "R2",
             f"{fin.qualname}#exit-code-source", "complete_run_meta is not given self.run_meta.exit_code", loc=fin.loc)
